@@ -694,6 +694,16 @@ class Interp:
                 outs.append(V("meth", meths=[(cn, owner, m, b.is_self)]))
                 continue
             ai = pm.init_attrs(cn).get(attr)
+            if attr == "contextual_modeling_obj_containers":
+                # the link wrappers that point to the object: each names one of the objects that hold it (or None once it
+                # is detached) — what `modeling_obj_containers` gathers
+                cx.links.add((cn, "<containers>"))
+                cs = pm.containers(cn)
+                w = V("rec", const="<link wrapper>", fields={
+                    "modeling_obj_container": V("obj", cs, False) if cs else V("none"),
+                    "attr_name_in_mod_obj_container": RAW0()})
+                outs.append(V("list", elem=w))
+                continue
             if ai is None:
                 kc, cval = pm._class_const(cn, attr)
                 if attr in PLAIN_MODEL_ATTRS:
@@ -1682,6 +1692,13 @@ class Interp:
             return self.inline_free(fn, pm.modules[modname][0], args, kw, cx)
         if n in EXTERNAL_CALLS:
             return raw(alld, deg={})
+        if n == "next" and a0 is not None and a0.k in ("list", "dict"):
+            # next(<iterable>[, default]): one of its elements, or the default
+            el_ = self.elem_of(a0)
+            outs_ = [add_deps(el_, a0.deps)] + ([args[1]] if len(args) > 1 else [])
+            return join(outs_) if len(outs_) > 1 else outs_[0]
+        if n == "iter" and a0 is not None and a0.k in ("list", "dict"):
+            return a0
         if n in ("print", "type", "id", "hash", "repr", "abs", "any", "all", "next", "iter", "dict", "format"):
             return raw(alld, deg={})
         cx.unknown.append(f"call of unknown function {n}() in {where[1]}")
